@@ -1042,6 +1042,8 @@ impl Kanata {
                 // Process this and return false so that it is not retained.
                 let layout = self.layout.bm();
                 let Coord { x, y } = wfd.coord;
+                // An explicit operation takes over from a pending hold-for-duration release.
+                self.vkeys_pending_release.remove(&wfd.coord);
                 handle_fakekey_action(wfd.action, layout, x, y);
                 false
             } else {
@@ -1569,6 +1571,11 @@ impl Kanata {
                                 layout.default_layer,
                                 layout.layers[layout.default_layer][x as usize][y as usize]
                             );
+                            // An explicit press / release / tap / toggle takes over from a
+                            // pending hold-for-duration release of the same virtual key. Otherwise
+                            // a later hold-for-duration would not press the key again after a
+                            // release, and a press would be cut short at the old deadline.
+                            self.vkeys_pending_release.remove(coord);
                             handle_fakekey_action(*action, layout, x, y);
                         }
                         CustomAction::Delay(delay) => {
@@ -1793,6 +1800,7 @@ impl Kanata {
                         CustomAction::FakeKeyOnRelease { coord, action } => {
                             let (x, y) = (coord.x, coord.y);
                             log::debug!("fake key on release {action:?} {x:?},{y:?}");
+                            self.vkeys_pending_release.remove(coord);
                             handle_fakekey_action(*action, layout, x, y);
                             pbtn
                         }
